@@ -3,8 +3,9 @@
 import BacVerif.Drv.Tag
 import BacVerif.Model.Codec
 import BacVerif.Model.SchemaWF
+import BacVerif.Model.Typed
 import BacVerif.Gen.Schemas
-open Lean BacVerif BacVerif.Drv BacVerif.Schema BacVerif.Codec
+open Lean BacVerif BacVerif.Drv BacVerif.Schema BacVerif.Codec BacVerif.Typed
 
 partial def jVal : Val → Json
   | .prim lvt d => Json.mkObj [("p", Json.arr #[Json.num lvt, jHex d])]
@@ -15,6 +16,34 @@ partial def jVal : Val → Json
       | some v => jVal v).toArray)]
   | .choice i v => Json.mkObj [("ch", Json.arr #[Json.num i, jVal v])]
   | .list vs => Json.mkObj [("list", Json.arr (vs.map jVal).toArray)]
+
+/-- semantic rendering of a C01 value (what the Python attribute holds) -/
+def jInt (i : Int) : Json := Json.num (JsonNumber.fromInt i)
+
+def jPrim : PrimVal → Json
+  | .null => Json.mkObj [("null", Json.num 0)]
+  | .bool b => Json.mkObj [("bool", Json.bool b)]
+  | .unsigned n => Json.mkObj [("u", Json.num n)]
+  | .integer i => Json.mkObj [("i", jInt i)]
+  | .real b => Json.mkObj [("f32", Json.num b.toNat)]
+  | .double b => Json.mkObj [("f64", Json.num b.toNat)]
+  | .octets bs => Json.mkObj [("o", jHex bs)]
+  | .charstr e bs => Json.mkObj [("s", Json.arr #[Json.num e, jHex bs])]
+  | .bits bs => Json.mkObj [("b", Json.arr (bs.map fun b => Json.num (if b then 1 else 0)).toArray)]
+  | .enum n => Json.mkObj [("e", Json.num n)]
+  | .date y m d w => Json.mkObj [("d", Json.arr #[jInt y, jInt m, jInt d, jInt w])]
+  | .time h m s c => Json.mkObj [("t", Json.arr #[jInt h, jInt m, jInt s, jInt c])]
+  | .oid ty inst => Json.mkObj [("oid", Json.arr #[jInt ty, jInt inst])]
+
+partial def jTVal : TVal → Json
+  | .prim pv => Json.mkObj [("p", jPrim pv)]
+  | .atom pv => Json.mkObj [("a", jPrim pv)]
+  | .tags ts => Json.mkObj [("tags", jTags ts)]
+  | .seq fs => Json.mkObj [("seq", Json.arr (fs.map fun
+      | none => Json.null
+      | some v => jTVal v).toArray)]
+  | .choice i v => Json.mkObj [("ch", Json.arr #[Json.num i, jTVal v])]
+  | .list vs => Json.mkObj [("list", Json.arr (vs.map jTVal).toArray)]
 
 def hexOf (j : Json) : R Bytes := do
   match ofHex? (← j.getStr?) with
@@ -148,6 +177,16 @@ def handle (env : Env) (j : Json) : R (Env × Json) := do
       match parseTags bs with
       | .error e => pure (env, jErr e)
       | .ok tags => pure (env, decodeReply env τ pdu tags)
+  | "typed" =>     -- octets -> typed value (C01 leaves) -> octets again: `decodeOctets`, `encodeOctets`
+      let τ ← fldNat j "t"
+      let bs ← fldHex j "hex"
+      match decodeOctets env τ bs with
+      | .error e => pure (env, jErr e)
+      | .ok tv =>
+        let re := match encodeOctets env τ tv with
+          | .ok b => jHex b
+          | .error e => Json.str ("err:" ++ e.name)
+        pure (env, jOk [("tv", jTVal tv), ("re", re)])
   | "castin" =>    -- Any.cast_in(element): the tags appended
       let r ← refOfJson (← fld j "ref")
       let v ← valOfJson (← fld j "v")
